@@ -299,6 +299,61 @@ func VerifC18Config() {
 	vf.Reach("done")
 }
 
+// VerifC18Reconfigure: a new configuration for the same URL pattern is accepted
+// between two writes of a response on a connection accepted earlier. The old
+// connection must not run the new configuration's actions (nor consume their
+// counts): the rest of its response is delivered whole.
+func VerifC18Reconfigure() {
+	slept = nil
+	drainAnywhere = false
+	span := int64(vf.Param("span"))
+	closeAt := vf.Int64("close-at")
+	vf.Assume(closeAt >= 0 && closeAt <= span)
+	shape := &Shape{URLRegex: regex, CloseConnections: []*CloseConnection{{Byte: closeAt, Count: 1}}}
+	vf.Assert(parseShapes(&Trafficshape{Shapes: []*Shape{shape}}) == nil, "valid-shape-accepted")
+	const headerLen = 2
+	l, c, s := setup(shape, 0, headerLen)
+	h := NewHandler(l)
+	bodyLen := vf.Param("body")
+	msg := vf.Bytes("response", headerLen+bodyLen)
+	k := 1 + vf.Choice("first-write", len(msg)-1)
+	n, err := c.Write(msg[:k])
+	closedEarly := k > headerLen && int64(k-headerLen) >= closeAt // the first write already reached the old close action
+	if closedEarly {
+		_, fc := err.(*ErrForceClose)
+		vf.Assert(fc && int64(n) == headerLen+closeAt, "close-action-delivers-head-plus-body-before-offset")
+		vf.Reach("closed")
+		vf.Reach("done")
+		return
+	}
+	vf.Assert(err == nil && n == k, "successful-write-delivers-everything")
+	reconfigured := vf.Choice("reconfigured-in-between", 2) == 1
+	if reconfigured {
+		js := `{"trafficshape": {"shapes": [{"url_regex": "example", "halts": [{"byte": 0, "duration": 7, "count": 1}], "close_connections": [{"byte": 1, "count": 1}, {"byte": 2, "count": 1}]}]}}`
+		vf.Assert(configure(h, js) == 200, "valid-reconfiguration-accepted")
+	}
+	n2, err2 := c.Write(msg[k:])
+	got := s.got.Bytes()
+	vf.Assert(bytes.Equal(got, msg[:len(got)]), "delivered-bytes-are-a-prefix-of-what-was-written")
+	if reconfigured {
+		vf.Assert(err2 == nil && n2 == len(msg)-k && len(got) == len(msg), "connection-accepted-before-a-reconfiguration-delivers-its-response-whole")
+		for _, d := range slept {
+			vf.Assert(d == 0, "new-halt-does-not-apply-to-an-earlier-connection")
+		}
+		for _, a := range l.Shapes.M[regex].Shape.Actions {
+			vf.Assert(a.getCount() == 1, "new-action-counts-not-consumed-by-an-earlier-connection")
+		}
+		vf.Reach("reconfigured")
+	} else if closeAt < int64(bodyLen) {
+		_, fc := err2.(*ErrForceClose)
+		vf.Assert(fc && int64(len(got)) == headerLen+closeAt, "close-action-delivers-head-plus-body-before-offset")
+		vf.Reach("closed")
+	} else if closeAt > int64(bodyLen) { // a close action exactly at the end of the body may or may not fire
+		vf.Assert(err2 == nil && len(got) == len(msg), "whole-response-delivered")
+	}
+	vf.Reach("done")
+}
+
 // VerifC18Release: closing a shaped connection releases the buckets created for it.
 func VerifC18Release() {
 	shape := &Shape{URLRegex: regex}
